@@ -65,6 +65,20 @@ def c15_lock_in_loop(ctx):
     return _fired(ctx, "C15.R1", "ctl_lock_in_loop|lock in loop"), "C15.R1 on SharedCore::ctl_lock_in_loop"
 
 
+def c09_unguarded_index(ctx):
+    from .rules import c09
+    c09.panic_rule(ctx, "C09", "C09.R1", ["peer::ctl_unguarded_index", "peer::ctl_unguarded_last"])
+    return _fired(ctx, "C09.R1", "ctl_unguarded_index") and _fired(ctx, "C09.R1", "ctl_unguarded_last"), "C09.R1 on peer::ctl_unguarded_index / ctl_unguarded_last"
+
+
+def c09_loop_cannot_exit(ctx):
+    from .rules import c09
+    c09.loops_can_exit(ctx, "C09", "C09.R3", ["peer::ctl_loop_cannot_exit", "peer::ctl_unguarded_index"])
+    fired = _fired(ctx, "C09.R3", "ctl_loop_cannot_exit")
+    quiet = not _fired(ctx, "C09.R3", "ctl_unguarded_index")
+    return fired and quiet, "C09.R3 on peer::ctl_loop_cannot_exit (and silent on an ordinary for loop)"
+
+
 def run(names, extract):
     out = []
     for n in names:
